@@ -161,7 +161,7 @@ PROPS['C10']['rule'] = SERVER_RULE + (' PLUS the receive path (IPv4 -> UDP -> DH
     'random bytes, random payloads, bit flips, length fields off by one, frames up to 4 KB; a panic is a violation with the frame as replay.')
 PROPS['C06']['tests'] = PROPS['C06']['tests'] + ['TestC09NoAlias']
 # C07 on the wire: OFFER/ACK of the running server carry the option list of the sender's hardware address, the advertised lease is reserved
-PROPS['C07']['tests'] = PROPS['C07']['tests'] + ['TestServerHistories']
+PROPS['C07']['tests'] = PROPS['C07']['tests'] + ['TestServerHistories', 'TestServerStories']
 PROPS['C07']['env'] = {'VERIF_MONITORS': '207'}
 PROPS['C07']['monitor_tags'] = PROPS['C07']['monitor_tags'] | {207}
 PROPS['C07'].setdefault('timeout', {'quick': 600, 'thorough': 2400})
